@@ -619,3 +619,8 @@ fn data_len_for_size(size: IntSize) -> Option<usize> {
     let row_bytes = min_row_bytes(size)?;
     compute_data_len(size, row_bytes.get())
 }
+
+#[cfg(tiny_skia_verif)]
+pub(crate) fn verif_data_len_for_size(size: IntSize) -> Option<usize> {
+    data_len_for_size(size)
+}
